@@ -481,6 +481,21 @@ def c12_oracle(m, req, resp, before, after):
              {'consumers_without_allocations': extra,
               'allocations_without_consumer': missing},
              accepted=resp.ok)
+    # project / user / type are those of the most recent SUCCESSFUL write:
+    # a refused request, or a request that does not name the consumer, leaves
+    # them alone
+    named = set(req.get('consumers') or []) if resp.ok else set()
+    for c, old in before.consumers.items():
+        new = after.consumers.get(c)
+        if new is None or new['id'] != old['id'] or c in named:
+            continue
+        if (new['project'], new['user'], new['type']) != \
+                (old['project'], old['user'], old['type']):
+            fail('consumer-attributes-changed-without-successful-write',
+                 {'consumer': c,
+                  'before': [old['project'], old['user'], old['type']],
+                  'after': [new['project'], new['user'], new['type']]},
+                 accepted=resp.ok)
     if req['op'] not in ('put_allocations', 'post_allocations', 'reshaper'):
         return
     if not resp.ok:
